@@ -114,10 +114,25 @@ func scalarValue(s *Spec, fd protoreflect.FieldDescriptor, msg protoreflect.Mess
 		if raw != "P" {
 			return protoreflect.Value{}, fmt.Errorf("bad message value %q", raw)
 		}
+		var m protoreflect.Message
 		if fd.IsList() {
-			return msg.NewField(fd).List().NewElement(), nil
+			m = msg.NewField(fd).List().NewElement().Message()
+		} else {
+			m = msg.NewField(fd).Message()
 		}
-		return msg.NewField(fd), nil
+		// the embedded message must itself be valid (protovalidate recurses into it)
+		switch s.Kind {
+		case "date":
+			f := m.Descriptor().Fields()
+			m.Set(f.ByName("year"), protoreflect.ValueOfInt32(2020))
+			m.Set(f.ByName("month"), protoreflect.ValueOfInt32(2))
+			m.Set(f.ByName("day"), protoreflect.ValueOfInt32(3))
+		case "dec":
+			m.Set(m.Descriptor().Fields().ByName("value"), protoreflect.ValueOfString("1.5"))
+		case "any":
+			m.Set(m.Descriptor().Fields().ByName("type_name"), protoreflect.ValueOfString("foo.v1.Bar"))
+		}
+		return protoreflect.ValueOfMessage(m), nil
 	}
 	return protoreflect.Value{}, fmt.Errorf("kind %s", s.Kind)
 }
@@ -519,13 +534,17 @@ func isZeroScalar(s *Spec, raw string) bool {
 }
 
 // j5Accepts: the meaning of the whole declaration for one candidate field value.
-func j5Accepts(s *Spec, v Val) (ok bool, why string, unknown bool) {
+//
+// hasPresence says whether the compiled field can tell "not set" from "set to the zero value";
+// when it cannot, the candidate `~` denotes the very same message as the zero value and is
+// judged as such.
+func j5Accepts(s *Spec, v Val, hasPresence bool) (ok bool, why string, unknown bool) {
 	if s.Arr {
 		n := uint64(len(v.Items))
 		if v.Absent {
 			n = 0
 		}
-		if s.Req && n == 0 {
+		if effReq(s) && n == 0 {
 			return false, "required", false
 		}
 		if s.AMin != nil && n < *s.AMin {
@@ -558,7 +577,7 @@ func j5Accepts(s *Spec, v Val) (ok bool, why string, unknown bool) {
 		return true, "", false
 	}
 	if isMsgKind(s.Kind) {
-		if s.Req && v.Absent {
+		if effReq(s) && v.Absent {
 			return false, "required", false
 		}
 		return true, "", false
@@ -566,12 +585,12 @@ func j5Accepts(s *Spec, v Val) (ok bool, why string, unknown bool) {
 	// scalar: without presence tracking the unset field IS the zero value
 	raw := v.Raw
 	if v.Absent {
-		if s.Opt {
+		if s.Opt && hasPresence {
 			return true, "", false // explicitly optional and absent: nothing to check
 		}
 		raw = zeroRaw(s)
 	}
-	if s.Req && isZeroScalar(s, raw) {
+	if effReq(s) && isZeroScalar(s, raw) {
 		return false, "required", false
 	}
 	return j5Item(s, raw)
@@ -583,4 +602,9 @@ func zeroRaw(s *Spec) string {
 		return "-"
 	}
 	return "0"
+}
+
+// effReq: required as declared; a primary key is always required (README / schema.proto).
+func effReq(s *Spec) bool {
+	return s.Req || (s.Kind == "key" && s.PK != nil && *s.PK)
 }
